@@ -114,7 +114,10 @@ func (c *Check) walkRegion(rule string, fn *ssa.Function, entry *ssa.BasicBlock,
 	return w.Paths
 }
 
-const ownID = "syncer.(*Syncer).instanceID(alloc:s)"
+// isOwnID: the canonical origin of s.instanceID() (s being the receiver, however it is held).
+func isOwnID(v string) bool {
+	return strings.HasPrefix(v, "syncer.(*Syncer).instanceID(") && (strings.HasSuffix(v, ":s)") || strings.HasSuffix(v, ":s})"))
+}
 
 // C05-R1 OWN-FIRST: no upload while the own instance is still waited for.
 func ruleOwnFirst(c *Check, rule string) {
@@ -145,7 +148,7 @@ func ruleOwnFirst(c *Check, rule string) {
 					for k := j - 1; k >= 0; k-- {
 						ce := &p.Events[k]
 						if ce.Kind == "call" && ce.Res == ev.Cond.Atom.A {
-							if len(ce.Args) == 2 && ce.Args[1] == ownID && !ev.Cond.Truth {
+							if len(ce.Args) == 2 && isOwnID(ce.Args[1]) && !ev.Cond.Truth {
 								okGuard = true
 							}
 							break
@@ -419,7 +422,7 @@ func ruleTrigger(c *Check, ruleTrig, ruleOnly string) {
 		// waiting for own?
 		var waitingOwn, haveWait bool
 		for _, ce := range callsOf(p, "syncer.(*InstanceSet).Contains") {
-			if len(ce.Args) == 2 && ce.Args[1] == ownID {
+			if len(ce.Args) == 2 && isOwnID(ce.Args[1]) {
 				if tr, f := boolCond(p, ce.Res, -1); f {
 					waitingOwn, haveWait = tr, true
 				}
@@ -688,4 +691,119 @@ func funcCalls(fn *ssa.Function, name string) bool {
 		}
 	}
 	return false
+}
+
+// C05-R3 LISTING-INCLUDES-OWN: in Receiver.RunOnce the listing result that
+// feeds SeenInstances()/HasSnapshots() does not depend on includingOwn.
+func ruleListingIncludesOwn(c *Check, rule string) {
+	name := "syncer/receiver.(*Receiver).RunOnce"
+	fn, paths := c.walkFn(rule, name, WalkConfig{Memo: true,
+		KeepEvent: func(e *Event) bool {
+			return e.Kind == "ret" || e.Kind == "store" && (strings.HasSuffix(e.Addr, ".lastSeenByInstance") || strings.HasSuffix(e.Addr, ".hasSnapshots")) ||
+				e.Kind == "mapupdate" && strings.Contains(e.Addr, "makemap") || e.Kind == "call" && (strings.Contains(e.Callee, "Interface.List") || strings.Contains(e.Callee, "ParseName"))
+		},
+		KeepAtom: func(a Atom) bool {
+			s := a.String()
+			return strings.Contains(s, "includingOwn") || strings.Contains(s, "ownInstance") || strings.Contains(s, "Interface.List@")
+		}})
+	if paths == nil {
+		return
+	}
+	inc := param(fn, 2)
+	n, bad := 0, 0
+	for i := range paths {
+		p := &paths[i]
+		for j, e := range p.Events {
+			if e.Kind == "store" && (strings.HasSuffix(e.Addr, ".lastSeenByInstance") || strings.HasSuffix(e.Addr, ".hasSnapshots")) ||
+				e.Kind == "mapupdate" && strings.HasPrefix(e.Addr, "makemap") && strings.HasSuffix(e.Key, ".InstanceID") {
+				n++
+				for _, pe := range p.Events[:j] {
+					if pe.Kind == "cond" && (strings.Contains(pe.Cond.Atom.String(), inc) || strings.Contains(pe.Cond.Atom.String(), ".ownInstance")) {
+						bad++
+						c.Bad(rule, name+"/listing-independent-of-own", "what RunOnce records as seen per instance ("+e.Addr+") depends on includingOwn / the own instance name: the own snapshots would be missing from SeenInstances() and the start-up guard would not wait for them", c.P.InstrPos(e.Instr), describe(c, p))
+						break
+					}
+				}
+			}
+		}
+	}
+	if bad == 0 {
+		c.Ok(rule, name+"/listing-independent-of-own", fmt.Sprintf("%d writes of lastSeenByInstance / hasSnapshots / the per-instance map happen before (independently of) any test of includingOwn or ownInstance", n), c.P.Pos(fn.Pos()))
+	}
+	c.Floor(rule, n, 3, "listing result writes in Receiver.RunOnce")
+}
+
+// ruleLoadErrReturned: LoadOnce returns the transaction's error (C18-R2b).
+func ruleLoadErrReturned(c *Check, rule string) {
+	fn, paths := c.walkFn(rule, fnLoadOnce, WalkConfig{Memo: true,
+		KeepEvent: func(e *Event) bool { return e.Kind == "ret" || e.Kind == "call" && strings.Contains(e.Callee, "lmdb.Env") || e.Kind == "mapupdate" },
+		KeepAtom:  func(a Atom) bool { return strings.Contains(a.String(), "lmdb.Env") }})
+	if paths == nil {
+		return
+	}
+	n, bad := 0, 0
+	for i := range paths {
+		p := &paths[i]
+		for _, u := range callsOf(p, "(*lmdb.Env).Update") {
+			okk, f := boolCond(p, "isnil("+u.Res+")", -1)
+			if f && !okk {
+				n++
+				if !(p.End == "return" && p.Rets[2] == u.Res) {
+					bad++
+					c.Bad(rule, fnLoadOnce+"/txn-error-returned", "a failed (aborted) merge transaction is not returned as LoadOnce's error", c.pathPos(p), describe(c, p))
+				}
+				for _, e := range p.Events {
+					if e.Kind == "mapupdate" {
+						bad++
+						c.Bad(rule, fnLoadOnce+"/state-after-abort", "syncer state is updated although the merge transaction failed", c.P.InstrPos(e.Instr), nil)
+					}
+				}
+			}
+		}
+	}
+	if bad == 0 && n > 0 {
+		c.Ok(rule, fnLoadOnce+"/txn-error-returned", "the error of the aborted merge transaction is returned unchanged and no syncer state is updated", c.P.Pos(fn.Pos()))
+	}
+	c.Floor(rule, n, 1, "failing-transaction paths of LoadOnce")
+}
+
+// ruleIntegerKeyFlag (C19-R5c, C11-R4): IterUpdate derives integerKey from the
+// DBI's MDB_INTEGERKEY flag; shadow DBIs inherit that flag.
+func ruleIntegerKeyFlag(c *Check, rule string) {
+	fn, paths := c.walkFn(rule, fnIterUpd, WalkConfig{})
+	if paths == nil {
+		return
+	}
+	ik, _ := c.constValue("lmdbenv/strategy", "LMDBIntegerKeyFlag")
+	dk, _ := c.constValue("lmdbenv/dbiflags", "IntegerKey")
+	mask, _ := c.constValue("syncer", "AllowedShadowDBIFlagsMask")
+	c.Expect(ik == "8" && dk == ik && mask == ik, rule, "MDB_INTEGERKEY-constants", "LMDBIntegerKeyFlag == dbiflags.IntegerKey == 0x08 (MDB_INTEGERKEY) and the shadow flag mask contains exactly it", fmt.Sprintf("LMDBIntegerKeyFlag=%s dbiflags.IntegerKey=%s AllowedShadowDBIFlagsMask=%s; MDB_INTEGERKEY is 0x08", ik, dk, mask), "")
+	n, bad := 0, 0
+	for i := range paths {
+		p := &paths[i]
+		for _, ib := range callsOf(p, "lmdbenv/strategy.iterBoth") {
+			n++
+			fl := callsOf(p, "(*lmdb.Txn).Flags")
+			ok := len(fl) == 1 && fl[0].Args[1] == param(fn, 1)
+			if ok {
+				atom := "(" + fl[0].Res + "#0 & const:" + ik + ")"
+				r := p.State.RelOf("int", atom, "const:0")
+				want := "const:false"
+				if r == GT {
+					want = "const:true"
+				} else if r&GT != 0 {
+					ok = false
+				}
+				ok = ok && ib.Args[2] == want
+			}
+			if !ok {
+				bad++
+				c.Bad(rule, fnIterUpd+"/integer-key-from-flags", "iterBoth's integerKey argument ("+ib.Args[2]+") is not derived from txn.Flags(dbi) & MDB_INTEGERKEY of the DBI being updated", evPos(c, ib), describe(c, p))
+			}
+		}
+	}
+	if bad == 0 {
+		c.Ok(rule, fnIterUpd+"/integer-key-from-flags", fmt.Sprintf("on all %d paths integerKey is true exactly when txn.Flags(dbi) has MDB_INTEGERKEY", n), c.P.Pos(fn.Pos()))
+	}
+	c.Floor(rule, n, 2, "iterBoth calls in IterUpdate")
 }
